@@ -326,6 +326,24 @@ theorem src_preload_coins_eq (s : Py.SliceSt R) :
   rw [show preload_coins s = preload_var_uint 4 s from rfl]
   exact src_preload_var_uint_eq 4 s
 
+/-! ### `preload_ref`, strings -/
+
+theorem src_preload_ref_eq (s : Py.SliceSt R) : viewR id (preload_ref 0 s) = SOp.preloadRef (view s) := by
+  rw [show preload_ref 0 s = Py.bindO (s.refs[s.ref_offset + 0]?) s (fun ref => (s, some (id ref))) from rfl, Nat.add_zero,
+    src_peek_ref id s]
+  unfold SOp.bind SOp.pure
+  cases h : SOp.preloadRef (view s) with
+  | mk s1 o => cases o <;> rfl
+
+/-- `load_string(n)` / `preload_string(n)`: the result before `.decode()` (a str travels as its UTF-8 bytes); `0` = all whole bytes left -/
+theorem src_load_string_eq (n : Nat) (s : Py.SliceSt R) : viewR id (load_string n s) = SOp.loadString n (view s) := by
+  unfold load_string SOp.loadString
+  split <;> simp only [bindS_ret] <;> exact src_load_bytes_eq _ s
+
+theorem src_preload_string_eq (n : Nat) (s : Py.SliceSt R) : viewR id (preload_string n s) = SOp.preloadString n (view s) := by
+  unfold preload_string SOp.preloadString
+  split <;> simp only [bindS_ret] <;> exact src_preload_bytes_eq _ s
+
 /-! ### what the view does not show: the bit reads leave the reference list and the offset alone, the reference reads the bits -/
 
 theorem src_refs_untouched (n : Nat) (s : Py.SliceSt R) :
